@@ -107,6 +107,8 @@ def rdOp : Rd (Option Op) := do
   | "cl" => return some (.input [])
   | "al" => return some (.input [])
   | "ar" => return some (.input [])
+  -- `rv`: the channel is alive again (a re-attached session); the library writes whether or not the channel is alive
+  | "rv" => return some (.input [])
   | _ => return none
 
 def parseOp (s : String) : Option Op := (rdOp.run (words s)).1
